@@ -32,6 +32,26 @@ CHECKS = {
             "down, cross expiries, then connect.", "6 C16", SOCK_NOTE),
 }
 
+WIRE_NOTE = ("The reference is the TLA+ wire layer (Crc16, Wire, AT4Msg, AT5Msg, WireMatch) transcribed from the vendor documents "
+             "(timer/quick-timer layouts from the repository docstrings); TLC evaluates it on every case. Exhaustive per byte position, "
+             "per field cross product and (thorough) per adjacent byte pair; sampled beyond. Nothing is proved about Python code.")
+
+CHECKS.update({
+    "C03": ("Every control/request object (enumerated descriptions) and every status-type object (what the real decoder makes of intact console "
+            "payloads) is sent through the real send path; the written bytes are framed and read by the TLA+ wire layer (lengths, nested "
+            "sub-header lengths, CRC, reading = submitted object) and fed back into the real receive path; TLC validates the recorded trace "
+            "(delivered header/message = reference reading, nothing left over, no reset).", "6 C03", WIRE_NOTE),
+    "C05": ("The public decoders are run on payloads swept per byte position (256 values), per adjacent byte pair, over record counts 0..16, "
+            "announced strides and the cross product of documented codes; TLC judges every (payload, result) pair with Check_Decode: equal to "
+            "the reference reading (or its sensor-gated variant), absent where the reference is not-available, or rejected.", "6 C05", WIRE_NOTE),
+    "C06": ("TLC checks the table lemma of Crc16 over all 65536 register values and the vendor anchors, judges calculate()/validate() on all 1- and "
+            "2-byte strings (Check_Crc) and supplies the table for the fold over 3-byte strings; frames damaged by single/double-bit and burst "
+            "errors are fed to the real socket and the traces validated against the contract (no delivery, reset, heal).", "6 C06", WIRE_NOTE),
+    "C17": ("Frames of every unregistered type byte, unregistered 0x1F ids and 0xC0 sub-types and longer strides are fed on a live connection "
+            "(strict: delivered as unsupported, no reset); random, mutated (recomputed CRC), truncated and wrong-length streams are fed and the "
+            "traces validated: nothing misread, no unhandled exception, heal phase succeeds.", "6 C17", WIRE_NOTE + " " + SOCK_NOTE),
+})
+
 TECH = "TLA+ spec (SocketImpl + SocketContract) model-checked by TLC; TLC-generated schedules replayed into the code; recorded traces validated by TLC (trace validation)"
 
 
@@ -47,7 +67,8 @@ def main():
             "engine": "tlc+harness",
             "level_claimed": {"category": "model_checking", "text": text, "design_ref": "DESIGN.md section " + ref},
             "level_note": note,
-            "technique": TECH,
+            "technique": TECH if pid not in ("C03", "C05", "C06", "C17") else
+            "TLA+ reference wire specification evaluated by TLC on recorded results of the real codecs / validated traces of the real socket",
         })
     claimed = set(CHECKS)
     allp = [json.loads(l)["id"] for l in open(os.path.join(ROOT, "properties.jsonl"))]
